@@ -420,6 +420,22 @@ func (v *xmlValue) UnmarshalXML(d *ixml.Decoder, start ixml.StartElement) error 
 	// buffer. This forces the encoder to redeclare any used namespaces.
 	var b bytes.Buffer
 	e := ixml.NewEncoder(&b)
+	// Encode inside a wrapper element that declares a default namespace nobody
+	// uses, so that the encoder writes xmlns="" on elements in no namespace:
+	// the stored value must not depend on the default namespace of whatever
+	// element it is later embedded in. The wrapper is cut off again below.
+	const noDefault = "urn:x-go-webdav:no-default-namespace"
+	wrapper := ixml.StartElement{
+		Name: ixml.Name{Space: noDefault, Local: "v"},
+		Attr: []ixml.Attr{{Name: ixml.Name{Local: "xmlns"}, Value: noDefault}},
+	}
+	if err := e.EncodeToken(wrapper); err != nil {
+		return err
+	}
+	if err := e.Flush(); err != nil {
+		return err
+	}
+	skip := b.Len()
 	depth := 0
 	for {
 		t, err := next(d)
@@ -445,7 +461,11 @@ func (v *xmlValue) UnmarshalXML(d *ixml.Decoder, start ixml.StartElement) error 
 	if err != nil {
 		return err
 	}
-	*v = b.Bytes()
+	if b.Len() > skip {
+		*v = b.Bytes()[skip:]
+	} else {
+		*v = nil
+	}
 	return nil
 }
 
